@@ -768,6 +768,19 @@ pub fn advance_clock(ns: u64) {
     }
 }
 
+/// The code under test asks for the number of usable CPUs through the affinity mask; workers are pinned to one CPU,
+/// so sim threads are told a fixed 8 (deterministic across hosts).
+#[no_mangle]
+pub unsafe extern "C" fn sched_getaffinity(pid: libc::pid_t, size: libc::size_t, set: *mut libc::cpu_set_t) -> libc::c_int {
+    if is_sim_thread() && !set.is_null() && size >= 8 {
+        std::ptr::write_bytes(set as *mut u8, 0, size);
+        *(set as *mut u8) = 0xff;
+        return 0;
+    }
+    let f = real_fn!("sched_getaffinity", unsafe extern "C" fn(libc::pid_t, libc::size_t, *mut libc::cpu_set_t) -> libc::c_int);
+    f(pid, size, set)
+}
+
 // ---------------------------------------------------------------------------------------------------------------
 // randomness
 
